@@ -2,7 +2,7 @@
 \* configurations with literal constants per tier; this file is the quick-tier "small" model, for running TLC by hand.
 SPECIFICATION Spec
 CONSTANTS NP = 2 NA = 2 NS = 1 V6 = {} BlackAddr = {} BlackMid = {} IpCap = 1 IntroCap = 1 SvcCap = 1
-          Defects = {} MaxDepth = 5
+          NB = 0 IterBufs = {} Defects = {} MaxDepth = 5
 VIEW NoRetOp
 INVARIANT TypeOK
 INVARIANT LookupsAgree
